@@ -141,6 +141,7 @@ type CallEntry struct {
 	Err   uint8 // 0 nil, 1 other, 2 timeout, 3 EOF, 4 closed
 	Fault uint8
 	All   int32 // index among all ops of the connection
+	Dl    int64 // 'W': the write deadline armed on the connection when the call was made (ns since start; -1 none)
 }
 
 type SimConn struct {
@@ -199,7 +200,7 @@ type NetCfg struct {
 type Net struct {
 	sim   *Sim
 	cfg   NetCfg
-	nodes [16]node
+	nodes [128]node
 	nn    int
 	regNS int // namespace given to nodes registered from now on
 	curNS int // namespace in which addresses are resolved
@@ -392,13 +393,21 @@ func (c *SimConn) nextIdx(side byte) (all int, fault int, fn int) {
 
 //go:norace
 func (c *SimConn) logCall(op uint8, arg int64, n int, err error, fault int, all int) {
+	c.logCallDl(op, arg, n, err, fault, all, 0)
+}
+
+//go:norace
+func (c *SimConn) armedWriteDeadline() int64 { return relTime(c.sim, c.wdl) }
+
+//go:norace
+func (c *SimConn) logCallDl(op uint8, arg int64, n int, err error, fault int, all int, dl int64) {
 	s := c.sim
 	s.lock()
 	if len(c.log) == cap(c.log) {
 		c.logOvf = true
 	}
 	if len(c.log) < cap(c.log) {
-		c.log = append(c.log, CallEntry{Step: s.step, T: int64(s.Now()), Op: op, Arg: arg, N: int32(n), Err: errCode(err), Fault: uint8(fault), All: int32(all)})
+		c.log = append(c.log, CallEntry{Step: s.step, T: int64(s.Now()), Op: op, Arg: arg, N: int32(n), Err: errCode(err), Fault: uint8(fault), All: int32(all), Dl: dl})
 	}
 	if fault != 0 && fault < numFaultKinds {
 		s.stats.Faults[fault]++
@@ -459,6 +468,7 @@ func (q *pipe) advance(n int) {
 
 func (c *SimConn) Write(p []byte) (int, error) {
 	all, fault, fn := c.nextIdx('w')
+	armed := c.armedWriteDeadline()
 	done := 0
 	r := &parkRec{kind: opWrite, conn: c, n: len(p), fault: fault, faultN: fn}
 	for {
@@ -472,7 +482,7 @@ func (c *SimConn) Write(p []byte) (int, error) {
 			break
 		}
 	}
-	c.logCall('W', int64(len(p)), done, r.resErr, r.fault, all)
+	c.logCallDl('W', int64(len(p)), done, r.resErr, r.fault, all, armed)
 	return done, r.resErr
 }
 
